@@ -107,11 +107,16 @@ impl ProxySettings {
         }
 
         if let Some(host) = url.host_str() {
-            if !self
-                .no_proxy_hosts
-                .iter()
-                .any(|x| host.ends_with(x.to_lowercase().as_str()))
-            {
+            // A no-proxy entry matches the host itself and its subdomains, never a host that merely
+            // ends with the same letters; an empty entry (e.g. from a trailing comma) matches nothing.
+            let bypass = self.no_proxy_hosts.iter().any(|x| {
+                let x = x.trim_start_matches('.').to_lowercase();
+                !x.is_empty()
+                    && host
+                        .strip_suffix(x.as_str())
+                        .is_some_and(|rest| rest.is_empty() || rest.ends_with('.'))
+            });
+            if !bypass {
                 return match url.scheme() {
                     "http" => self.http_proxy.as_ref(),
                     "https" => self.https_proxy.as_ref(),
